@@ -39,6 +39,11 @@ CHECKS = {
   text="Model checking of two small explicit specifications with TLC: the packaging rule (domain, never-object, equality with the canonical packaging, follow-up routines succeed) over 314 cases, and the rescaling machine over ~950 (object, scale pattern, isometry) states; bound to the code by executing every packaging case on 26 entry points and by rebuilding every object from rescaled representatives (negative and fractional factors, unit by unit) and re-running constructor, image-under-isometry, coordinates, distance, tangent direction / point_along / unit_tangent_towards, origin_to as a projective map, circle and horosphere parameters against the unchanged spec state.",
   note="Only the installed NumPy 2.x; factors {-3,-1,-1/2,1/3,2,1} in 12 patterns; dimension 2 objects of HypAction.tla; circle/horosphere parameters compared metamorphically with the unscaled library output; geodesics through the half-space point at infinity excluded; integer-typed results accepted when numerically equal to the canonical result.",
   design="4/C12"),
+ "C20": dict(
+  technique="TLA+ spec CP1.tla (with Gauss.tla): CP^1 over Gaussian integers, disks as Hermitian integer matrices, Moebius action adj(M) H adj(M)*, complement -H; TLC explores point conversions, the Build/Apply/Complement disk state machine and a truth table of contains/intersects per disk pair, checks the model theorems, and emits them; every emitted conversion, disk history step and pair replayed on geometry_tools.complex_projective",
+  text="Model checking of an explicit exact specification of CP^1 points, disks and Moebius maps with TLC (coordinate systems inverse and equal to stereographic projection, action on matrices equals pointwise image and is a left action, complement an involution exchanging sides, disk equals its reported spherical cap, contains/intersects sound on probe grids with witnesses, duality, Euclidean criterion, Moebius invariance), bound to the code by replaying every emitted conversion table row, every labelled transition of disk histories (boundary points on the circle, interior point inside, circle parameters, centre_inside, Fubini-Study centre/diameter, operand unchanged) and every disk pair (elementwise and pairwise modes, all four bounded/unbounded combinations).",
+  note="Centres in a 5x5 Gaussian box, radii k/2, 7 fixed Gaussian-integer Moebius matrices and words of length <= 2 (3 thorough); circles not tangent; affine observables only when the circle avoids infinity; irrational inputs and near-degenerate conditioning not covered; rendering of emitted integers/rationals/surds to floats and tolerances (1e-9 / 1e-8) trusted.",
+  design="4/C20"),
 }
 
 NOT_YET = {
